@@ -152,16 +152,37 @@ fn c18_round(ctx: &Ctx, out: &mut Out, rng: &mut Rng, k: u64) {
         cfg.health_check_port = Some(free_port(true));
         out.obs("rounds_with_health_clients", 1);
     }
+    // every seventh round: fault injection on. Replies may then fail verification by design; what
+    // is still demanded is one reply per request, no dead worker, no panic
+    let grease_round = k % 7 == 5;
+    if grease_round {
+        cfg.fault_percentage = Some(*rng.pick(&[1u32, 10, 50]));
+        out.obs("rounds_with_fault_injection", 1);
+    }
     let Some(mut sp) = start_server(ctx, out, &cfg, &format!("c18-{}", k), pin) else { return };
     let port = sp.cfg.port;
     let health_stop = Arc::new(AtomicBool::new(false));
     let health_threads: Vec<_> = match sp.cfg.health_check_port {
         Some(hp) if health_round => (0..2)
-            .map(|_| {
+            .map(|hi| {
                 let st = health_stop.clone();
                 std::thread::spawn(move || {
                     let (mut ok, mut bad) = (0u64, 0u64);
+                    let mut n = 0u64;
                     while !st.load(Ordering::Relaxed) {
+                        n += 1;
+                        // the second client is rude every other time: it connects and resets the
+                        // connection at once (the server finds a dead peer when it accepts)
+                        if hi == 1 && n % 2 == 0 {
+                            if let Ok(s) = std::net::TcpStream::connect_timeout(&format!("127.0.0.1:{}", hp).parse().unwrap(), Duration::from_millis(300)) {
+                                let lin = libc::linger { l_onoff: 1, l_linger: 0 };
+                                unsafe {
+                                    libc::setsockopt(std::os::unix::io::AsRawFd::as_raw_fd(&s), libc::SOL_SOCKET, libc::SO_LINGER, &lin as *const libc::linger as *const libc::c_void, std::mem::size_of::<libc::linger>() as u32);
+                                }
+                                drop(s);
+                            }
+                            continue;
+                        }
                         match crate::c15::health_once(hp, Duration::from_secs(3)) {
                             Ok(r) if r.starts_with("HTTP/1.1 200") => ok += 1,
                             _ => bad += 1,
@@ -270,6 +291,11 @@ fn c18_round(ctx: &Ctx, out: &mut Out, rng: &mut Rng, k: u64) {
                             pending.remove(i);
                             out.obs("burst_replies_verified", 1);
                         }
+                        None if grease_round => {
+                            // a deliberately broken reply: it answers one of the requests
+                            pending.pop();
+                            out.obs("burst_replies_invalid_under_fault_injection", 1);
+                        }
                         None => {
                             out.violation("C18 burst reply-invalid", "a reply to the open-loop burst verifies for none of its outstanding requests", json!({"kind":"load-round","round":k}));
                             break;
@@ -288,6 +314,33 @@ fn c18_round(ctx: &Ctx, out: &mut Out, rng: &mut Rng, k: u64) {
         let (ok, bad) = h.join().unwrap_or((0, 0));
         out.obs("health_checks_during_load_ok", ok as i64);
         health_bad += bad;
+    }
+    // rounds with a health port end with the process at its descriptor limit and health
+    // connections pending (accept fails, nothing is dequeued): the time service must go on
+    let mut accept_fault_missing = 0usize;
+    let mut accept_conns: Vec<std::net::TcpStream> = Vec::new();
+    if let (true, Some(hp)) = (health_round && std::env::var("RTVERIF_WRAP_SERVER").is_err(), sp.cfg.health_check_port) {
+        let n = open_fds(sp.pid());
+        let lim = libc::rlimit { rlim_cur: n as u64, rlim_max: n as u64 };
+        let r = unsafe { libc::prlimit(sp.pid() as i32, libc::RLIMIT_NOFILE, &lim, std::ptr::null_mut()) };
+        if r == 0 && n > 0 {
+            for _ in 0..(12 * nworkers) {
+                if let Ok(c) = std::net::TcpStream::connect_timeout(&format!("127.0.0.1:{}", hp).parse().unwrap(), Duration::from_millis(300)) {
+                    accept_conns.push(c);
+                }
+            }
+            std::thread::sleep(Duration::from_millis(100));
+            let mut prng = Rng::new(rng.next_u64());
+            for i in 0..48 {
+                let proto = if i % 2 == 0 { Proto::Classic } else { Proto::Ietf };
+                match probe(port, &pk, proto, &mut prng, Duration::from_millis(1500)) {
+                    Ok(_) => out.obs("accept_fault_probes_answered", 1),
+                    Err(e) if grease_round && !e.starts_with("no reply") => out.obs("accept_fault_probes_answered", 1),
+                    Err(_) => accept_fault_missing += 1,
+                }
+            }
+            out.obs("rounds_ending_at_descriptor_limit", 1);
+        }
     }
     let drops1 = udp_drops(port).unwrap_or(0);
     let desc = json!({"kind":"load-round","round":k,"num_workers":nworkers,"clients":nclients,"requests_per_client":per_client,"pin":pin,"batch_size":cfg.batch_size,"source": if cfg.via_env {"ENV"} else {"file"}});
@@ -310,6 +363,7 @@ fn c18_round(ctx: &Ctx, out: &mut Out, rng: &mut Rng, k: u64) {
                     batches.entry(e.srep_hash).or_default().push(e.client);
                     out.obs_max("rtt_us", e.rtt_us as i64);
                 }
+                Outcome::Invalid(_) if grease_round => out.obs("replies_invalid_under_fault_injection", 1),
                 Outcome::Invalid(why) => out.violation(
                     &format!("C18 reply-invalid why={}", crate::c09::reason_class(why)),
                     &format!("client {} request #{} ({}): reply does not verify for this request under the long-term key: {}", e.client, e.seq, e.proto.name(), why),
@@ -335,6 +389,14 @@ fn c18_round(ctx: &Ctx, out: &mut Out, rng: &mut Rng, k: u64) {
             );
         }
     }
+    if accept_fault_missing > 0 {
+        out.violation(
+            "C18 requests-unanswered at-descriptor-limit-with-pending-health-connections",
+            &format!("{} of 48 requests went unanswered while the process was at its descriptor limit and health connections were pending ({} workers)", accept_fault_missing, nworkers),
+            desc.clone(),
+        );
+    }
+    drop(accept_conns);
     if missing > 0 {
         if drops1 != drops0 {
             out.inconclusive("kernel drop counter moved");
@@ -507,9 +569,20 @@ fn c19_run_phase(ctx: &Ctx, out: &mut Out, rng: &mut Rng, k: u64, force: Option<
     if phase == Phase::AcceptFault {
         cfg.health_check_port = Some(free_port(true));
     }
+    // how the process was started and how the signal reaches it
+    let start_disp = if force.is_none() { rng.below(4) } else { 0 };
+    match start_disp {
+        2 => cfg.ignore_signals = vec![libc::SIGHUP],
+        3 => cfg.ignore_signals = vec![libc::SIGINT, libc::SIGQUIT],
+        _ => {}
+    }
+    let delivery = if force.is_none() { rng.below(4) } else { 0 };
+    let delivery_name = ["process", "one-thread", "twice", "three-mixed"][delivery as usize];
+    out.obs(&format!("signal_delivery_{}", delivery_name), 1);
+    out.obs(&format!("start_dispositions_{}", ["default", "default", "SIGHUP-ignored", "SIGINT-ignored"][start_disp as usize]), 1);
     let Some(mut sp) = start_server(ctx, out, &cfg, &format!("c19-{}", k), None) else { return };
     let port = sp.cfg.port;
-    let desc = json!({"kind":"signal-run","run":k,"signal":signame,"num_workers":nworkers,"client_stats":stats_on,"phase":format!("{:?}", phase),"delay_us":delay_us});
+    let desc = json!({"kind":"signal-run","run":k,"signal":signame,"num_workers":nworkers,"client_stats":stats_on,"phase":format!("{:?}", phase),"delay_us":delay_us,"delivery":delivery_name,"ignored_at_start":format!("{:?}", cfg.ignore_signals)});
     let stop = Arc::new(AtomicBool::new(false));
     let sent = Arc::new(AtomicU64::new(0));
     let mut client_handles = Vec::new();
@@ -633,7 +706,32 @@ fn c19_run_phase(ctx: &Ctx, out: &mut Out, rng: &mut Rng, k: u64, force: Option<
     }
     std::thread::sleep(Duration::from_micros(delay_us));
     let alive_before = sp.exited().is_none();
-    sp.signal(sig);
+    match delivery {
+        1 => {
+            // to one thread of the process (a worker, the reporter, the signal helper or main)
+            let ts = sp.threads();
+            if ts.is_empty() {
+                sp.signal(sig);
+            } else {
+                let (tid, name) = ts[rng.usize_below(ts.len())].clone();
+                out.obs(&format!("signal_to_thread_{}", name.split('-').next().unwrap_or("?")), 1);
+                sp.signal_thread(tid, sig);
+            }
+        }
+        2 => {
+            sp.signal(sig);
+            std::thread::sleep(Duration::from_micros(rng.below(60_000)));
+            sp.signal(sig);
+        }
+        3 => {
+            sp.signal(sig);
+            std::thread::sleep(Duration::from_micros(rng.below(20_000)));
+            sp.signal(if sig == libc::SIGINT { libc::SIGTERM } else { libc::SIGINT });
+            std::thread::sleep(Duration::from_micros(rng.below(200_000)));
+            sp.signal(sig);
+        }
+        _ => sp.signal(sig),
+    }
     let t_sig = Instant::now();
     // the load keeps going until the server exits or the bound expires
     let res = sp.wait_exit(Duration::from_secs(10));
@@ -673,7 +771,7 @@ fn c19_run_phase(ctx: &Ctx, out: &mut Out, rng: &mut Rng, k: u64, force: Option<
             out.obs(&format!("time_to_exit_{}", bucket), 1);
             if st.code() != Some(0) {
                 out.violation(
-                    &format!("C19 exit-status-nonzero signal={} phase={:?}", signame, phase),
+                    &format!("C19 exit-status-nonzero signal={} phase={:?}{}", signame, phase, if delivery != 0 || start_disp >= 2 { format!(" delivery={} ignored-at-start={}", delivery_name, start_disp >= 2) } else { String::new() }),
                     &format!("exit {:?} {:?} after SIG{} ({} workers, client_stats {}): {}", st, dt, signame, nworkers, stats_on, sp.output().lines().filter(|l| l.contains("panicked")).take(2).collect::<Vec<_>>().join(" / ")),
                     desc.clone(),
                 );
